@@ -399,6 +399,60 @@ def validate_evidence(ev: dict):
             raise HarnessError('evidence counts too small: ' + json.dumps({k: cov[k] for k in ('evaluations', 'distinct_nontrivial')}))
 
 
+def run_fuzz_campaign(prop: str, seed: int, seconds: int, workers: int):
+    """Thorough-tier extra: coverage-guided atheris/libFuzzer workers on vf/fuzz/target.py (oracle inside the target).
+    Returns (bucket dict, stats) or (None, reason) when atheris is unavailable."""
+    import shutil
+    import subprocess
+    import tempfile
+    deps = os.path.join(VERIF_DIR, '.deps')
+    env = dict(os.environ, PYTHONPATH=os.pathsep.join([os.path.abspath(REPO), VERIF_DIR, deps]), AHRS_REPO=os.path.abspath(REPO))
+    probe = subprocess.run([sys.executable, '-c', 'import atheris'], env=env, capture_output=True)
+    if probe.returncode != 0:
+        return None, 'atheris not importable (run setup.sh); thorough tier continued with Hypothesis only'
+    work = tempfile.mkdtemp(prefix=f'fuzz-{prop}-', dir=os.environ.get('TMPDIR', '/tmp'))
+    procs = []
+    for w in range(workers):
+        corpus = os.path.join(work, f'corpus{w}')
+        os.makedirs(corpus)
+        out = os.path.join(work, f'findings{w}.jsonl')
+        procs.append((out, subprocess.Popen([sys.executable, '-m', 'vf.fuzz.target', prop, out, f'-max_total_time={seconds}', f'-seed={seed*100+w+1}',
+                                             '-max_len=256', corpus], env=env, cwd=VERIF_DIR, stdout=subprocess.DEVNULL, stderr=subprocess.DEVNULL)))
+    buckets, stats = {}, {'workers': workers, 'seconds': seconds, 'execs': 0, 'nontrivial': 0, 'findings': 0, 'corpus_files': 0}
+    for out, pr in procs:
+        try:
+            pr.wait(timeout=seconds + 120)
+        except Exception:
+            pr.kill()
+        try:
+            st_ = json.load(open(out + '.stats'))
+            for k in ('execs', 'nontrivial', 'findings'):
+                stats[k] += int(st_.get(k, 0))
+        except Exception:
+            pass
+        if os.path.exists(out):
+            for ln in open(out):
+                try:
+                    f = json.loads(ln)
+                except Exception:
+                    continue
+                size = len(json.dumps(f['case']))
+                b = buckets.get(f['bucket'])
+                if b is None:
+                    buckets[f['bucket']] = {'count': 1, 'witness': {'bucket': f['bucket'], 'msg': f['msg'], 'sub': f['sub'], 'case': f['case']}, 'size': size}
+                else:
+                    b['count'] += 1
+                    if size < b['size']:
+                        b['witness'], b['size'] = {'bucket': f['bucket'], 'msg': f['msg'], 'sub': f['sub'], 'case': f['case']}, size
+    for w in range(workers):
+        try:
+            stats['corpus_files'] += len(os.listdir(os.path.join(work, f'corpus{w}')))
+        except Exception:
+            pass
+    shutil.rmtree(work, ignore_errors=True)
+    return buckets, stats
+
+
 def run_property(prop: str, tier: str, seed: int, only_sub: str | None = None) -> int:
     t_start = time.time()
     mod = load_property(prop)
@@ -484,6 +538,17 @@ def run_property(prop: str, tier: str, seed: int, only_sub: str | None = None) -
         for b, rec in r['buckets'].items():
             absorb(b, rec)
 
+    # 2b. thorough tier: coverage-guided fuzzing campaign where the property module offers a target
+    fuzz_stats = None
+    if tier == 'thorough' and getattr(mod, 'FUZZ', False) and not only_sub:
+        fb, fuzz_stats = run_fuzz_campaign(prop, seed, int(os.environ.get('VERIF_FUZZ_SECONDS', '240')), min(nshards, os.cpu_count() or 1))
+        if fb is None:
+            fuzz_stats = {'skipped': fuzz_stats}
+        else:
+            evaluations += fuzz_stats['execs']
+            for b, rec in fb.items():
+                absorb(b, rec)
+
     # 3. classify buckets
     for bucket in sorted(all_buckets):
         rec = all_buckets[bucket]
@@ -541,6 +606,7 @@ def run_property(prop: str, tier: str, seed: int, only_sub: str | None = None) -
             'buckets': {b: r['count'] for b, r in sorted(all_buckets.items())},
             'known_findings_reported': sorted(known_hits),
             'shards': nshards,
+            'fuzz_campaign': fuzz_stats,
             'budget_hit': bool(budget_hit),
             'inconclusive_budget': bool(budget_hit),
             'exhaustive': False,
